@@ -27,6 +27,13 @@ theorem C18_lockset_loaded : GB.Generated.locksetLoadErrors = 0 := by decide
     `reflectionMethods` slice as its `methodPriority`.) -/
 theorem C18_no_shared_globals : GB.Generated.globalAliases = [] := by decide
 
+/-- No `x = append(y, …)` in any non-test package where `y` is a field, a package-level variable or a parameter,
+    `x` is not `y` itself and `y`'s capacity is not clipped (`y[:n:n]`, `slices.Clip/Clone/Concat`): such a result
+    shares `y`'s backing array with `y` and with every other result as soon as `y` has spare capacity — objects that
+    look independent then write into each other (fix D34: `bridgelog.wrappedLogger.With`, where the per-target and
+    per-request loggers derived from one user-supplied logger raced; seeded change C18-m6: `AdaptedClientPool.New`). -/
+theorem C18_no_aliasing_appends : GB.Generated.aliasingAppends = [] := by decide
+
 /-- Lock discipline over the table regenerated from the sources in this run.
     Full statement wanted: `∀ a b ∈ table, conflict a b → protectedPair a b`; it FAILS on the current
     tree (see `C18_writtenStatus_unprotected`), so the proved statement excuses exactly the listed pairs. -/
